@@ -186,7 +186,7 @@ NEW = {
     "username": ["bob", None],
     "password": ["p@ss", "a:b%40", None],
     "hostname": ["new.org", "[::2]", "10.9.9.9"],
-    "port": [8443, None, 0],
+    "port": [8443, None, 0, 80, 443],  # (80 and 443: an explicitly requested port stays, also when it is the scheme's default)
 }
 
 
@@ -281,7 +281,7 @@ def query_helpers(r):
             cases.append(("include", kw, exp, lambda kw=kw: base.include_query_params(**kw)))
         for kw in ({"a": "9"}, {"x": 1, "y": "2"}, {}):
             cases.append(("replace", kw, [(k, str(v)) for k, v in kw.items()], lambda kw=kw: base.replace_query_params(**kw)))
-        for keys in (("a",), ("zz",), ("a", "b"), ()):
+        for keys in (("a",), ("zz",), ("a", "b"), (), ("zz", "a"), ("zz", "b", "a"), ("a", "a"), ("a", "zz", "b"), ("b", "zz")):
             cases.append(("remove", list(keys), [p for p in before if p[0] not in keys], lambda keys=keys: base.remove_query_params(*keys)))
         for name, arg, exp, fn in cases:
             r.count("evaluations")
